@@ -155,6 +155,14 @@ class RepoInterp(Interp):
             return self.class_names(e.left) + self.class_names(e.right)
         return [self.ctx.classname(self.mi, e)]
 
+    def e_Name(self, e, s):
+        from .absint import Const
+        if e.id not in s.env:
+            r = self.ctx.repo.resolve_symbol(self.mi, e.id)
+            if r and r[1] in r[0].constants and isinstance(r[0].constants[r[1]], ast.Constant):
+                return [(Const(r[0].constants[r[1]].value), s)]
+        return super().e_Name(e, s)
+
     def getattr(self, v, attr, s, node=None):
         from .absint import Const, FuncRef
         if isinstance(v, FuncRef):
